@@ -106,7 +106,7 @@ def run_tree_property(pid, prop_file, tier, seed, want):
             tcq = c.split(" | ")[1:]
             out = [parts[0]]
             for q, r in zip(tcq, parts[1:]):
-                out.append("-" if q.split()[0] in ("data", "zero") else r)
+                out.append("-" if q.split()[0] in ("data", "zero", "cv") else r)
             return out
 
         def oracle(c, line):
